@@ -126,10 +126,9 @@ func builtinJSONStringify(call FunctionCall) Value {
 		if isArray(replacer) {
 			length := objectLength(replacer)
 			seen := map[string]bool{}
-			propertyList := make([]string, length)
-			length = 0
-			for index := range propertyList {
-				value := replacer.get(arrayIndexToString(int64(index)))
+			propertyList := make([]string, 0, length)
+			for index := range int64(length) {
+				value := replacer.get(arrayIndexToString(index))
 				switch value.kind {
 				case valueObject:
 					switch value.value.(*object).class {
@@ -146,10 +145,9 @@ func builtinJSONStringify(call FunctionCall) Value {
 					continue
 				}
 				seen[name] = true
-				length++
-				propertyList[index] = name
+				propertyList = append(propertyList, name)
 			}
-			ctx.propertyList = propertyList[0:length]
+			ctx.propertyList = propertyList
 		} else if replacer.class == classFunctionName {
 			value := objectValue(replacer)
 			ctx.replacerFunction = &value
